@@ -112,18 +112,28 @@ Fixpoint sent_ok (ops : list (op * bytes)) : bool :=
   end.
 
 (* quic: the Fetcher of the history has QUIC.Enabled *)
-Definition run_hist (quic : bool) (a o : list value) : option verdict :=
+Definition run_hist_with (oracle : bool -> list op -> list fobs -> bool) (quic : bool) (a o : list value) : option verdict :=
   match a, o with
   | [VL ops], [VL obs] =>
     match dec_ops ops, dec_obss obs with
     | Some ops', Some obs' =>
       let expected := map enc_obs (model_run quic kzero (mops_of ops' obs')) in
-      let v := functional [VL expected] o (C20_ok quic (map fst ops') obs') in
+      let v := functional [VL expected] o (oracle quic (map fst ops') obs') in
       Some (if sent_ok ops' then v
             else {| v_known := true; v_agree := false; v_oracle := v_oracle v; v_expected := [VZ (-1)] |})
     | _, _ => None
     end
   | _, _ => None
+  end.
+
+Definition run_hist := run_hist_with C20_ok.
+
+(* ke.bodylen: fixed-size records with bodies of other lengths than 2; the model follows the code
+   (two bytes are read), the oracle reads the message by the record framing of RFC 8915 *)
+Definition run_bodylen (a o : list value) : option verdict :=
+  match a with
+  | [ops; VZ q] => run_hist_with C20_framed_ok (negb (q =? 0)) [ops] o
+  | _ => None
   end.
 
 (* ---------- ke.target: where the client's NTP request goes after a key exchange ---------- *)
@@ -355,6 +365,8 @@ Definition glue_C20 (k : string) (a o : list value) : option verdict :=
     match glue_target a o with Some v => Some v | None => Some (relational false true) end
   else if is k "ke.starget" then
     match glue_starget a o with Some v => Some v | None => Some (relational false true) end
+  else if is k "ke.bodylen" then
+    match run_bodylen a o with Some v => Some v | None => Some (relational false true) end
   else if is k "ke.overlap" then
     match glue_overlap a o with Some v => Some v | None => Some (relational false true) end
   else if is k "ke.own" then
